@@ -160,6 +160,11 @@ def run(prog, tier) -> Result:
                 want = st.norm(o.args[0].mag)
                 keys = [e[2] for e in st.effects if e[0] == "mapread" and getattr(e[1], "registry", False)
                         and isinstance(e[2], TermV)]
+                if any(t.startswith("split@") and t.endswith("=numeric+remainder") for t in o.trace) and len(keys) < 2:
+                    return ("gives up without looking up the normalised term",
+                            f"KeyError after normalisation split a numeric factor off the term, but the remaining term "
+                            f"was never looked up (lookups: {[repr(st.norm(k.mag)) for k in keys]}): a product / quotient "
+                            f"whose units have to be converted to a declared unit would be undefined")
                 if not any(st.norm(k.mag).equals(want) for k in keys):
                     return ("gives up without looking up the term itself",
                             f"KeyError although the unit directory was never asked for the exact definition "
